@@ -120,6 +120,11 @@ struct iauth_xquery_client {
     /** Bitmask of services that sent OK responses to this client. */
     uint32_t ok_mask;
 
+    /** Value of #iauth_xquery_epoch when the masks above were last
+     * checked against the service slots.
+     */
+    unsigned int epoch;
+
     /** Account name concatenated with password; empty if unknown.
      *
      * This is the value passed by the client in its *first* PASSWORD
@@ -148,6 +153,9 @@ static const char *type_names[] = {
 struct iauth_xquery_service {
     /** Number of clients who need reponses from this service. */
     unsigned int refs;
+
+    /** Value of #iauth_xquery_epoch when this service took its slot. */
+    unsigned int since;
 
     /** Type of service, from configuration file. */
     enum iauth_xquery_type type;
@@ -188,6 +196,9 @@ static struct {
 static struct iauth_module iauth_xquery;
 static struct log_type *iauth_xquery_log;
 static struct iauth_xquery_services iauth_xquery_services;
+
+/** Counts how often a service has taken a slot of #iauth_xquery_services. */
+static unsigned int iauth_xquery_epoch;
 static struct iauth_flagset iauth_xquery_flags[4];
 
 static struct {
@@ -242,6 +253,26 @@ static void iauth_xquery_report_stats(void)
         stats.n_srv_allocs, stats.n_srv_frees, stats.n_cli_allocs);
 }
 
+/** Makes a client's masks forget the former occupants of slots that
+ * have been given to another service since the client last looked: the
+ * bits are indexed by slot, and a released slot is used again.
+ */
+static void iauth_xquery_sync(struct iauth_xquery_client *cli)
+{
+    struct iauth_xquery_service *srv;
+    unsigned int ii;
+
+    for (ii = 0; ii < iauth_xquery_services.used; ++ii) {
+        srv = iauth_xquery_services.vec[ii];
+        if (srv && (int)(srv->since - cli->epoch) > 0) {
+            cli->sent_mask &= ~(1u << ii);
+            cli->more_mask &= ~(1u << ii);
+            cli->ok_mask &= ~(1u << ii);
+        }
+    }
+    cli->epoch = iauth_xquery_epoch;
+}
+
 static void iauth_xquery_unref(unsigned int ii)
 {
     struct iauth_xquery_service *srv;
@@ -287,6 +318,7 @@ static void iauth_xquery_x_reply(const char service[], const char routing[],
     cli = set_find(&req->data, &ptr);
     if (!cli)
         return;
+    iauth_xquery_sync(cli);
 
     /* See if this is a response from a service that we are waiting for. */
     for (ii = 0; ii < iauth_xquery_services.used; ++ii) {
@@ -375,6 +407,7 @@ static void iauth_xquery_new_client(struct iauth_request *req)
     node = set_node_alloc(sizeof(*cli));
     cli = set_node_data(node);
     cli->key = &iauth_xquery;
+    cli->epoch = iauth_xquery_epoch;
     set_insert(&req->data, node);
 }
 
@@ -394,6 +427,7 @@ static void iauth_xquery_check(struct iauth_request *req,
     cli = set_find(&req->data, &ptr);
     if (!cli)
         return;
+    iauth_xquery_sync(cli);
 
     /* Send the request off to the xquery services. */
     routing[0] = '\0';
@@ -541,6 +575,7 @@ static void iauth_xquery_password(struct iauth_request *req,
     cli = set_find(&req->data, &ptr);
     if (!cli)
         return;
+    iauth_xquery_sync(cli);
 
     if ((cli->more_mask == 0) || (cli->password[0] == '\0')) {
         iauth_xquery_check_password(req, cli, password);
@@ -616,6 +651,7 @@ static void iauth_xquery_config_service(const char *name, const char *type)
         stats.n_srv_allocs++;
         srv = xmalloc(sizeof(*srv) + strlen(name));
         strcpy(srv->name, name);
+        srv->since = ++iauth_xquery_epoch;
 
         /* Try to insert it in an empty slot. */
         for (ii = 0; ii < iauth_xquery_services.used; ++ii) {
@@ -739,6 +775,7 @@ int iauth_xreply_ok(struct iauth_request *request, const char *service)
     cli = set_find(&request->data, &ptr);
     if (!cli)
         return -1;
+    iauth_xquery_sync(cli);
 
     for (ii = 0; ii < iauth_xquery_services.used; ++ii)
     {
